@@ -12,6 +12,16 @@ from c03 import bits, unbits
 np.seterr(all='ignore')
 
 
+def solve_p(W):
+    """the logicle parameter p >= 1 with W = 2 p log10(p) / (p + 1), by bisection on the documented equation"""
+    import scipy.optimize
+    if W <= 0:
+        return 1.0
+    f = lambda q: 2 * q / (q + 1) * math.log10(q) - W
+    hi = 10.0 ** (W + 1) + 10.0
+    return float(scipy.optimize.brentq(f, 1.0, hi, xtol=1e-15, rtol=4 * np.finfo(float).eps, maxiter=500))
+
+
 class Prop(common.PropertyCheck):
     pid = 'C19'
     rule = ("samples with resolutions 2^8..2^18 and non-powers of two, raw and RFI/MEF-converted ranges (lower limits 0 and 1) x channel forms "
@@ -60,6 +70,11 @@ class Prop(common.PropertyCheck):
             yield {'res': [256, 1024, 4096, 1000][i % 4], 'units': ['raw', 'rfi', 'mef'][(i // 2) % 3], 'scale': ['logicle', 'linear', 'log'][i % 3], 'n': [None, 17][(i // 3) % 2],
                    'chform': ['repeat', 'neg1', 'repeat3', 'list_neg', 'neg3'][i % 5], 'over': None, 'dt': ['I', 'F'][(i // 5) % 2], 'tinyneg': i % 7 == 0, 'nan': False,
                    'seed': rng.randrange(1 << 30)}
+
+        # logicle bins generated right after bins for a W that differs in the fifth decimal only
+        for i in range(self.budget(12, 100)):
+            yield {'res': [1024, 4096, 262144][i % 3], 'units': ['raw', 'rfi'][i % 2], 'scale': 'logicle', 'n': [None, 17][i % 2], 'chform': ['name', 'list', 'all'][i % 3], 'over': 'Wnear',
+                   'dt': ['F', 'I'][i % 2], 'tinyneg': False, 'nan': False, 'seed': 3 * rng.randrange(1 << 28) + i % 3}
 
     def sample(self, case):
         import random
@@ -117,7 +132,13 @@ class Prop(common.PropertyCheck):
         kw = {}
         if case['over'] and scale == 'logicle':
             kw = {'T': {'T': 5e4}, 'M': {'M': 5.0}, 'W': {'W': 0.8}, 'W0': {'W': 0 if case['seed'] % 2 else 0.0}, 'Wbig': {'W': 3.0},
-                  'Tsmall': {'T': 20.0}, 'TM': {'T': 3e5, 'M': 6.0}}[case['over']]
+                  'Tsmall': {'T': 20.0}, 'TM': {'T': 3e5, 'M': 6.0}, 'Wnear': {'W': [0.50004, 1.23459, 0.00004][case['seed'] % 3]}}[case['over']]
+            if case['over'] == 'Wnear':
+                # bins for a W that agrees with this one to four decimals were generated just before (each generation solves its own equation)
+                try:
+                    self.sample(case).hist_bins(0, 8, 'logicle', W=[0.5, 1.23456, 0.0][case['seed'] % 3])
+                except Exception:
+                    pass
         nb = n
         if n == 'res':
             nb = None
@@ -185,7 +206,8 @@ class Prop(common.PropertyCheck):
                     out.setdefault('uniform_dev', {})[str(i)] = [float(np.max(np.abs(du - du.mean()))), float(t.M), float(t.T), float(t.W)]
                 if len(ev) >= 2 and np.all(np.isfinite(ev)):
                     # the documented function, evaluated here from the parameters: edges = S(uniform grid from -d/2 to M + d/2), d = M/(res - 1)
-                    Tt, Mt, Wt, pt = float(t.T), float(t.M), float(t.W), float(t._p)
+                    Tt, Mt, Wt = float(t.T), float(t.M), float(t.W)
+                    pt = solve_p(Wt)          # solved here from W = 2 p log10(p) / (p + 1), independently of the library's root finder
                     dl = Mt / (float(f.resolution(c)) - 1.0)
                     sg = np.linspace(-dl / 2.0, Mt + dl / 2.0, len(ev))
                     doc = Tt * 10 ** (-(Mt - Wt)) * (10 ** (sg - Wt) - pt ** 2 * 10 ** (-(sg - Wt) / pt) + pt ** 2 - 1)
@@ -194,7 +216,9 @@ class Prop(common.PropertyCheck):
                 if 3 <= len(ev) <= 400 and np.all(np.isfinite(ev)):
                     # exact display positions: the forward function (display -> data) inverted by bisection for every edge
                     import scipy.optimize
-                    fwd = lambda sv, target: float(t.transform_non_affine(np.array([sv], dtype=float))[0]) - target
+                    _T, _M, _W = float(t.T), float(t.M), float(t.W)
+                    _p = solve_p(_W)
+                    fwd = lambda sv, target: _T * 10 ** (-(_M - _W)) * (10 ** (sv - _W) - _p ** 2 * 10 ** (-(sv - _W) / _p) + _p ** 2 - 1) - target
                     us = []
                     for x in ev:
                         a_, b_ = -1.0, float(t.M) + 1.0
